@@ -385,7 +385,8 @@ impl<'a> StagesBuilder<'a> {
     fn remove_ids(&self, stage: usize, new_dep: &mut SmallVec<[SystemId; 4]>) {
         if !new_dep.is_empty() {
             for id in self.ids[stage].iter().flatten() {
-                if let Some(index) = new_dep.iter().position(|x| *x == *id) {
+                // A dependency may be listed more than once; remove every occurrence.
+                while let Some(index) = new_dep.iter().position(|x| *x == *id) {
                     new_dep.remove(index);
                 }
             }
